@@ -25,7 +25,7 @@ def bounds(tier):
     return dict(one_step='each of the 256 opcode values (symbolic byte, solver-forked) from stacks of depth 0..4 with symbolic items; numeric operands of '
                 'every length combination in {0,1,2,4,5}; executed and unexecuted branch; DISCOURAGE on/off',
                 composition='two symbolic non-push opcodes from depth-3 stacks (thorough)', flow='all IF/NOTIF/ELSE/ENDIF skeletons of <= %d tokens' % (3 if tier == 'quick' else 4),
-                limits='10 000/10 001 bytes, 520/521-byte pushes, 201/202 operations incl. multisig keys, 1000/1001 items via pushes, small ints, DUP, TOALTSTACK',
+                limits='10 000/10 001 bytes, 520/521-byte pushes, 201/202 operations incl. multisig keys, 1000/1001 items via pushes, small ints, DUP, TOALTSTACK, and via ANY single opcode after 998..1000 one-byte pushes (also with 100 items on the altstack); 201-operation limit with a CHECKMULTISIG that examines a signature',
                 signatures='CHECKSIG(VERIFY), CHECKMULTISIG(VERIFY) m-of-n n<=3 with symbolic keys/signatures, NULLDUMMY, CODESEPARATOR, signature removal',
                 verify='the 12 admissible flag subsets; P2SH-shaped scriptPubKey with matching / non-matching redeem script')
 
@@ -150,6 +150,20 @@ def h_limit(ctx, kind, n):
     elif kind == 'ops_multisig':
         # n NOPs then 0 0 3-key CHECKMULTISIG: the key count is added to the operation count
         script = B(b'\x61' * n + b'\x00\x00\x01\x02\x01\x03\x01\x04\x53\xae')
+        items = []
+    elif kind == 'ops_multisig_sig':
+        # as above with ONE signature to examine against 2 keys (1-of-2): the charge for the keys is the number of keys, however
+        # many of them the signature loop consumes
+        script = B(b'\x61' * n + b'\x00') + RS.push_encode(ctx, ctx.bytes('sig0', 9)) + B(b'\x51\x01\x02\x01\x03\x52\xae')
+        items = []
+    elif kind in ('stack_op0', 'stack_op1'):
+        # n one-byte pushes, then ANY opcode: whichever opcode makes stack + altstack exceed 1000 items must fail there
+        fill = b'\x00' if kind == 'stack_op0' else b'\x51'
+        script = B(fill * n) + ctx.bytes_of([tail])
+        items = []
+    elif kind == 'stack_alt_op':
+        # 100 items moved to the altstack first
+        script = B(b'\x51' * n + b'\x6b' * 100) + ctx.bytes_of([ctx.int('tail2', 0x6b, 0x80)])
         items = []
     elif kind == 'stack_push':
         script = B(b'\x00' * n) + B(b'\x01') + ctx.bytes('last', 1)
@@ -401,7 +415,8 @@ def instances(tier):
                 continue
             out.append(dict(h='flow', p=dict(toks=''.join(toks)), witness_every=0, keep_witnesses=0))
     # limits
-    for kind, ns in (('size', (9999, 10000)), ('push', (520, 521)), ('push_unexec', (520, 521)), ('ops', (200, 201)), ('ops_multisig', (197, 198, 199)),
+    for kind, ns in (('size', (9999, 10000)), ('push', (520, 521)), ('push_unexec', (520, 521)), ('ops', (200, 201)), ('ops_multisig', (197, 198, 199)), ('ops_multisig_sig', (197, 198, 199)),
+                     ('stack_op0', (999, 1000)), ('stack_op1', (998, 999, 1000)), ('stack_alt_op', (999, 1000)),
                      ('stack_push', (998, 999, 1000)), ('stack_smallint', (999, 1000)), ('stack_dup', (998, 999, 1000)), ('stack_alt', (997, 998, 999))):
         for n in ns:
             out.append(dict(h='limit', p=dict(kind=kind, n=n), max_seconds=900))
